@@ -1,0 +1,12 @@
+//go:build !verif
+// +build !verif
+
+// Package vhook provides verification hook points. Without the "verif" build tag
+// every hook is a no-op guarded by a false constant, so call sites compile to nothing.
+package vhook
+
+// Enabled reports whether verification hooks are compiled in.
+const Enabled = false
+
+// At is a no-op without the verif build tag.
+func At(point string, args ...interface{}) {}
